@@ -17,6 +17,9 @@ def run_shard(args):
     elif kind == 'chars':
         _, n, shard = args
         texts = [(t, 'chars len=%d' % l) for t, l in X.shard_strings(R.CHAR_SIGMA, n, shard)]
+    elif kind == 'layout':
+        _, n, shard = args
+        texts = [(t, 'layout lexemes n=%d' % l) for t, l in X.shard_strings(R.LAYOUT_LEX, n, shard)]
     else:
         res = C.run_worker(['c09mode'])
         r = C.Result()
@@ -47,6 +50,8 @@ def run(tier, seed):
             jobs.append(('corpus', g, dl, start, ('bom', 'comments-crlf-tab') if start == 'file' else ('bom',)))
     n = 3 if tier == 'quick' else 4
     jobs += [('chars', n, s) for s in X.prefix_shards(R.CHAR_SIGMA, n, 1 if tier == 'quick' else 2)]
+    ll = 4 if tier == 'quick' else 5
+    jobs += [('layout', ll, s) for s in X.prefix_shards(R.LAYOUT_LEX, ll, 1)]
     jobs.append(('mode',))
     total = C.Result()
     allh = set()
@@ -55,10 +60,10 @@ def run(tier, seed):
         total.merge(r)
     total.states = len(allh)
     total.nontrivial = len(allh)
-    rule = ('every G_ref sentence with at most %d non-default alternatives (accepted by the parser or not; plain layout at the full bound, BOM-prefixed and comment/CRLF/tab layouts at the quick bound) and every string of length<=%d over %r, through parse / parse_starts_at / '
+    rule = ('every G_ref sentence with at most %d non-default alternatives (accepted by the parser or not; plain layout at the full bound, BOM-prefixed and comment/CRLF/tab layouts at the quick bound) and every string of length<=%d over %r and of <=%d lexemes over the 16-lexeme layout alphabet, through parse / parse_starts_at / '
             'parse_tokens / lex / lex_starts_at, Parse::{parse, parse_starts_at, parse_without_path} for Mod*, Suite, Stmt, Expr, Identifier, Constant and all 55 generated node types, '
             'the deprecated helpers, in three modes at offsets {0, 1, 7, 400, 2^31, 2^32-2-len}; Mode::from_str on all strings of <=6 letters; states = distinct texts, '
-            'transitions = relations checked' % (d, n, ''.join(R.CHAR_SIGMA)))
+            'transitions = relations checked' % (d, n, ''.join(R.CHAR_SIGMA), ll))
     return C.finish(PROP, tier, seed, t0, total, rule,
                     ['reference = parse(text, mode) at offset 0, shifted and projected by the harness (in Rust, on the Debug rendering)',
                      'a bare yield statement is an expression statement in module mode but not an expression-mode input (same in CPython)'])
